@@ -25,7 +25,8 @@ RULE = ("table = packed structured dtype of 1-8 fields (i1..u8, f4, f8, bool, c8
         "without nrows (read, [:]), recfile.write/read, io.write/io.read with and without header=True. "
         "Non-trivial: big-endian or sub-array field, or >=2 fields with a bytes field holding an embedded NUL, "
         "or a header with nesting / quote / newline / END, or a field name or key containing END/SIZE, or "
-        ">4096 bytes of rows. Distinct = distinct case JSON.")
+        ">4096 bytes of rows. Distinct = distinct case JSON."
+        " Tables (shared generator): byte order per table or independently per field; one table in thirty has a wide field (string of 255..70001 bytes or a sub-array of 1100..9000 numbers), one binary table in forty a total size next to 4 KiB..3 MiB; user headers may carry reserved underscore names in any case (they need not survive, the table must).")
 ASSUMPTIONS = [
     "1-d arrays with at least one row; packed dtypes (no padding/offsets); header keys are str",
     "header floats are finite (NaN/inf are not Python literals that eval() back)",
